@@ -88,6 +88,25 @@ def decTok (s : String) : Option (Tok Float) :=
   | ["V", h] => some (.var (stringOfHex h))
   | ["Mo", m] => some (.month m.toNat!)
   | ["TZ", n, o] => some (.tz (stringOfHex n) o.toInt!)
+  | ["F", kind, n, extra] =>
+    -- pattern field: extra is `-` (none), a hex string, or hex strings joined by '.'
+    let name := stringOfHex n
+    let opt : Option String := if extra = "-" then none else some (stringOfHex extra)
+    let lst : List String := if extra = "-" || extra = "" then [] else (extra.splitOn ".").map stringOfHex
+    if kind = "TEXT" then some (.field (.text name opt))
+    else if kind = "DYNAMIC_TYPE" then some (.field (.dyn name opt))
+    else if kind = "GROUP" then some (.field (.group name lst))
+    else if kind = "TYPE_GROUP" then some (.field (.typeGroup lst name))
+    else if kind = "DATE_TIME" then some (.field (.dateTime name))
+    else if kind = "DATE" then some (.field (.date name))
+    else if kind = "TIME" then some (.field (.time name))
+    else if kind = "MONEY" then some (.field (.money name))
+    else if kind = "PERCENT" then some (.field (.percent name))
+    else if kind = "NUMBER" then some (.field (.number name))
+    else if kind = "MONTH" then some (.field (.month name))
+    else if kind = "DURATION" then some (.field (.duration name))
+    else if kind = "TIMEZONE" then some (.field (.timezone name))
+    else none
   | _ => none
 
 /-- `start,stop,active,texthex,tok` ; tok `-` = untyped ; unsupported token kinds make the whole
@@ -176,6 +195,33 @@ def step (st : DState) (line : String) : DState × String :=
         | .ok .none => (st, "ok\t-\t" ++ tail)
         | .ok (.month m) => (st, s!"ok\tMo:{m}\t" ++ tail)
         | .ok (.item i) => (st, "ok\t" ++ encItem i ++ "\t" ++ hexOfString (printItem st.cfg lang st.now i) ++ tail)
+  | ["rule_add", lang, name, kind, a1, a2, pats] =>
+    let patsDec : Option (List (List (TokInfo Float))) := if pats = "" then some [] else (pats.splitOn "|").mapM decInfos
+    let k : Option (ApiKind Float) :=
+      if kind = "const" then some (.const (floatOfHex a1)) else if kind = "decline" then some .decline
+      else if kind = "echo" then some (.echo (stringOfHex a1)) else if kind = "sum" then some .sum
+      else if kind = "coin" then some (.coin (floatOfHex a1) a2) else none
+    (match patsDec, k with
+     | some ps, some k =>
+       let (c', ok) := addRule st.cfg lang ⟨.api (stringOfHex name) k, ps⟩
+       ({ st with cfg := c' }, if ok then "1" else "0")
+     | _, _ => (st, "unsupported"))
+  | ["rule_del", lang, name] =>
+    let (c', ok) := deleteRule st.cfg lang (stringOfHex name)
+    ({ st with cfg := c' }, if ok then "1" else "0")
+  | ["dtype_add", name] =>
+    let (c', ok) := addDynamicType st.cfg (stringOfHex name)
+    ({ st with cfg := c' }, if ok then "1" else "0")
+  | ["dtype_item", g, idx, fmt, upc, downc, nms, dig, pats] =>
+    let patsDec : Option (List (List (TokInfo Float))) := if pats = "" then some [] else (pats.splitOn "|").mapM decInfos
+    (match patsDec with
+     | some ps =>
+       let nameList : List String := if nms = "" then [] else (nms.splitOn ".").map stringOfHex
+       let digs : Option Nat := if dig = "-" then none else some dig.toNat!
+       let it : UnitItem Float := ⟨stringOfHex g, idx.toNat!, stringOfHex fmt, ps, stringOfHex upc, stringOfHex downc, nameList, digs, none, none⟩
+       let (c', ok) := addDynamicTypeItem st.cfg it
+       ({ st with cfg := c' }, if ok then "1" else "0")
+     | none => (st, "unsupported"))
   | ["constdate", lang, word] =>
     -- the date a constant word (`today`, …) denotes in that language at the current `now`
     (st, match (constantOf st.cfg lang (stringOfHex word)).bind (constDate st.now) with
